@@ -22,6 +22,8 @@ RULE = ('a case is (date/time term, operands: datetimes built in yaql or supplie
 ASSUMPTIONS = [
     'float identities use a tolerance of 1 microsecond plus float rounding (relative 1e-12); integer identities are exact',
     'results outside years 1..9999 must raise on the yaql side (any exception class) and are counted separately',
+    'a datetime whose UTC form lies outside years 1..9999 (within a day of the ends of the range, at a non-zero offset) cannot be '
+    'converted between offsets by the host datetime type: an error is accepted for operations on it, a returned value must still be right',
     'only fixed offsets are generated (yaql has no named zones)',
 ]
 REQUIRED = {'cases': 3000, 'kind.naive': 200, 'kind.aware-zero': 200, 'kind.aware-nonzero': 500, 'kind.yaql-built': 500,
@@ -143,6 +145,16 @@ def close_float(a, b, scale=1.0):
     return abs(a - b) <= 1e-6 * scale + 1e-12 * max(abs(a), abs(b)) * 4
 
 
+def utc_form_outside(values):
+    for v in values:
+        if isinstance(v, datetime.datetime) and v.tzinfo is not None:
+            try:
+                v.astimezone(datetime.timezone.utc)
+            except (OverflowError, ValueError):
+                return True
+    return False
+
+
 def check(mon, rec, name, text, vars_, expect, kinds, kind='pair', replay=None):
     """expect: thunk returning the model value, may raise md.OutOfRange
     kind: pair | ts (timespan us) | exact | float | float-us (float compared at 1us)"""
@@ -163,6 +175,12 @@ def check(mon, rec, name, text, vars_, expect, kinds, kind='pair', replay=None):
         else:
             rec.violation('date-result-outside-range-not-refused:%s' % name, '%s returned %r although the result lies outside '
                           'years 1..9999' % (desc, got[1]), rp)
+        return None
+    if got[0] == 'error' and (utc_form_outside(vars_.values()) or (kind == 'pair' and not (md.MIN_LOCAL <= want[0] <= md.MAX_LOCAL))):
+        # the host datetime type converts between offsets through the UTC form; when that form lies outside
+        # years 1..9999 the conversion itself is impossible and an error is the only possible outcome
+        rec.count('agree.utc-form-out-of-range')
+        rec.count('agree')
         return None
     if got[0] == 'error':
         naive = 'naive' in kinds
